@@ -839,6 +839,21 @@ func (s *ShapeIndex) applyUpdatesInternal() {
 	// edge as the final index memory size. If this causes issues, add in
 	// batched updating to limit the amount of items per batch to a
 	// configurable memory footprint overhead.
+	if !s.isFirstUpdate() && (s.pendingAdditionsPos < s.nextID || len(s.pendingRemovals) > 0) {
+		// Incremental updates are not implemented yet: updateEdges and
+		// shrinkToFit would re-enter maybeApplyUpdates through Iterator()
+		// while mu is held, and absorbIndexCell needs tracker.lowerBound.
+		// Until they are, rebuild the whole index from the current shapes
+		// (removed shapes are no longer in s.shapes and simply drop out).
+		// When nothing is pending (a second goroutine that also saw a stale
+		// status and waited for the lock) the index must not be touched:
+		// other goroutines may already be reading it.
+		s.cellMap = make(map[CellID]*ShapeIndexCell)
+		s.cells = nil
+		s.pendingAdditionsPos = 0
+		s.pendingRemovals = s.pendingRemovals[:0]
+	}
+
 	t := newTracker()
 
 	// allEdges maps a Face to a collection of faceEdges.
@@ -848,7 +863,9 @@ func (s *ShapeIndex) applyUpdatesInternal() {
 		s.removeShapeInternal(p, allEdges, t)
 	}
 
-	for id := s.pendingAdditionsPos; id < int32(len(s.shapes)); id++ {
+	// Shape ids are never reused, so after a removal len(s.shapes) is
+	// smaller than the largest id handed out; iterate up to nextID.
+	for id := s.pendingAdditionsPos; id < s.nextID; id++ {
 		s.addShapeInternal(id, allEdges, t)
 	}
 
@@ -857,7 +874,7 @@ func (s *ShapeIndex) applyUpdatesInternal() {
 	}
 
 	s.pendingRemovals = s.pendingRemovals[:0]
-	s.pendingAdditionsPos = int32(len(s.shapes))
+	s.pendingAdditionsPos = s.nextID
 	// It is the caller's responsibility to update the index status.
 }
 
